@@ -41,7 +41,8 @@ type caseOp struct {
 	Expect []string          `json:"expect,omitempty"` // declared schema (valid programs)
 	Calls  []CallIface       `json:"calls,omitempty"`  // declared interfaces (valid programs): call-level validation
 	ID     int               `json:"id"`
-	NoTool bool              `json:"no_tool,omitempty"` // lexer/parser streams only
+	NoTool bool              `json:"no_tool,omitempty"`      // lexer/parser streams only
+	Cycle  bool              `json:"module_cycle,omitempty"` // run tars2go with -module-cycle (packages at <file>/<module>)
 }
 
 func (c *caseOp) mainBytes() []byte {
@@ -160,7 +161,11 @@ func runCase(e *env, c *caseOp, model map[string]string, skipReal bool) *caseRes
 		// emitted into the shared build module; -outdir must be relative for the import paths
 		// (`-module` + outdir) the generator derives
 		outdir = filepath.Join(e.buildDir, fmt.Sprintf("p%d", c.ID))
-		args = []string{"-outdir", fmt.Sprintf("p%d", c.ID), "-module", "c16gen", filepath.Join(dir, c.Main)}
+		args = []string{"-outdir", fmt.Sprintf("p%d", c.ID), "-module", "c16gen"}
+		if c.Cycle {
+			args = append(args, "-module-cycle")
+		}
+		args = append(args, filepath.Join(dir, c.Main))
 		cwd = e.buildDir
 	}
 	if c.NoTool {
@@ -547,7 +552,7 @@ var featTotal = map[string]int{}
 func hx(s string) string { return hex.EncodeToString([]byte(s)) }
 
 func progCase(p *Prog, rng *rand.Rand, plain bool) *caseOp {
-	c := &caseOp{Kind: "valid", Files: map[string]string{}, Edge: p.Edge, Origin: "grammar"}
+	c := &caseOp{Kind: "valid", Files: map[string]string{}, Edge: p.Edge, Origin: "grammar", Cycle: p.Cycle}
 	if p.Edge != "" {
 		c.Origin = "grammar-edge:" + p.Edge
 	}
@@ -558,12 +563,16 @@ func progCase(p *Prog, rng *rand.Rand, plain bool) *caseOp {
 			c.Main = f.Name + ".tars"
 		}
 		for _, m := range f.Modules {
+			key := m.Name
+			if p.Cycle {
+				key = modKey(f.Name, m.Name)
+			}
 			for _, d := range m.Decls {
 				switch d.Kind {
 				case "struct":
-					c.Expect = append(c.Expect, m.Name+"|S:"+ExpectedStruct(m.Name, d))
+					c.Expect = append(c.Expect, key+"|S:"+ExpectedStruct(key, d))
 				case "enum":
-					c.Expect = append(c.Expect, m.Name+"|E:"+ExpectedEnum(d))
+					c.Expect = append(c.Expect, key+"|E:"+ExpectedEnum(d))
 				}
 			}
 		}
@@ -604,6 +613,26 @@ func genCases(e *env, o *common.Opts, rng *rand.Rand, res *common.Result) []*cas
 		for k := 0; k < perEdge; k++ {
 			p := GenProg(rng, id, edge, false)
 			cases = append(cases, progCase(p, rng, false))
+			id++
+		}
+	}
+	// multi-file / multi-module programs with cross-module references of every kind
+	perShape := 1
+	if o.Thorough() {
+		perShape = 8
+	}
+	for _, shape := range xShapeNames {
+		for k := 0; k < perShape; k++ {
+			p := GenXProg(rng, id, shape, false)
+			cases = append(cases, progCase(p, rng, k%2 == 1))
+			id++
+		}
+	}
+	// the same layouts under -module-cycle, with the same module name in different files
+	for _, shape := range []string{"chain", "diamond", "mixed"} {
+		for k := 0; k < (perShape+1)/2; k++ {
+			p := GenXProg(rng, id, shape, true)
+			cases = append(cases, progCase(p, rng, k%2 == 0))
 			id++
 		}
 	}
